@@ -26,7 +26,7 @@ UUID4 = re.compile(r"^[0-9a-f]{8}-[0-9a-f]{4}-4[0-9a-f]{3}-[89ab][0-9a-f]{3}-[0-
 
 def floors(tier):
     k = 1 if tier == "quick" else 6
-    return {"rejections_checked": 12 * k, "calls_judged": 800 * k, "populated_observed": 500 * k, "caller_value_kept": 300 * k,
+    return {"rejections_checked": (12 if tier == "quick" else 50), "calls_judged": 800 * k, "populated_observed": 500 * k, "caller_value_kept": 300 * k,
             "explicit_empty_optional": 80 * k, "transport:rest": 200 * k, "transport:aio": 250 * k, "unlisted_method_calls": 60 * k}
 
 
